@@ -10,6 +10,6 @@ open Dtn7.Node
 
 def handle (line : String) : String :=
   NodeLine.judge ⟨Dtn7.Gen.C13.seqAssignedFirst, Dtn7.Gen.C13.sendBundleSkipsStored, Dtn7.Gen.C13.expiryCountsFromNow, Dtn7.Gen.C13.dtlsrReportsFailure,
-    Dtn7.Gen.C13.dispatchingHoldsRefused⟩ c13Fail line
+    Dtn7.Gen.C13.dispatchingHoldsRefused, Dtn7.Gen.C13.epidemicGateServesDirect⟩ c13Fail line
 
 def main : IO Unit := Driver.run handle
